@@ -57,6 +57,8 @@ theorem invFold_id : ∀ sg ∈ S4, (invFold sg = suits ↔ sg = [0, 1, 2, 3]) :
 /-- a row is inverted by the `invFold` of itself read as a sorted-suit list -/
 theorem comp_invFold : ∀ p ∈ S4, comp (invFold p) p = [0, 1, 2, 3] := by decide
 
+theorem comp_self_invFold : ∀ sg ∈ S4, comp sg (invFold sg) = [0, 1, 2, 3] := by decide
+
 theorem suits_mem_S4 : suits ∈ S4 := by decide
 
 end RP.Iso
